@@ -103,6 +103,7 @@ class FakeTransport(asyncio.BaseTransport):
         self.closed = False
         self.lost = False
         self.protocol = None
+        self.close_raises_after_loss = False
 
     def get_extra_info(self, name, default=None):
         return ("virtual-host", 1000 + self.index) if name == "peername" else default
@@ -114,6 +115,10 @@ class FakeTransport(asyncio.BaseTransport):
         if self.closed or self.lost:
             if not self.closed:
                 self.closed = True  # close after loss: nothing to do, like a real transport
+                if self.close_raises_after_loss:
+                    # e.g. an unplugged USB serial adapter: closing the dead file descriptor fails
+                    self.log.add("close_raised", self.index)
+                    raise OSError(9, "Bad file descriptor (virtual)")
             return
         self.closed = True
         self.log.add("transport_close", self.index)
@@ -145,6 +150,7 @@ class FakeFactory:
         self.default_outcome = default_outcome
         self.default_lifetime = default_lifetime
         self.calls = 0
+        self.close_raises_after_loss = False
         self.transports: list[FakeTransport] = []
 
     def make(self):
@@ -164,6 +170,7 @@ class FakeFactory:
                     self.log.add("attempt_fail", i)
                     raise ConnectionRefusedError(f"virtual connect failure #{i}")
                 transport = FakeTransport(self.log, i)
+                transport.close_raises_after_loss = self.close_raises_after_loss
                 protocol = SmartMeterMessageProtocol(asyncio.Queue(), [ModeDReader()])
                 transport.protocol = protocol
                 protocol.connection_made(transport)
@@ -180,7 +187,7 @@ class FakeFactory:
 
 
 def run_scenario(outcomes, lifetimes, horizon: float, close_at=None, config=None, default_outcome="fail",
-                 default_lifetime=None, use_clock_shim: bool = True, track_tasks: bool = True):
+                 default_lifetime=None, use_clock_shim: bool = True, track_tasks: bool = True, close_raises_after_loss: bool = False):
     """Run ConnectionManager.connect_loop() on a fresh virtual loop.
 
     close_at: None | ("iteration", k, position) | ("time", t) - position: 'first' | 'last' | int index into the ready queue.
@@ -192,6 +199,7 @@ def run_scenario(outcomes, lifetimes, horizon: float, close_at=None, config=None
     asyncio.set_event_loop(loop)
     log = Log(loop)
     factory = FakeFactory(log, outcomes, lifetimes, default_outcome, default_lifetime)
+    factory.close_raises_after_loss = close_raises_after_loss
     shim = None
     saved = mc.datetime
     if use_clock_shim:
